@@ -244,6 +244,12 @@ type crashCase struct {
 	Snaps []*store.PersistedData
 	Conc  bool // two concurrent savers (snaps[0], snaps[1]) after an initial sequential save of snaps[2] if present
 	Fail  bool // additionally: every call of the last save fails once
+	// Symlink: data.json exists beforehand as a symbolic link to a file in another directory that holds snapshot "L"
+	// (a data file kept on a shared volume); the saves then run as in the sequential cases
+	Symlink bool
+	// Loader: snaps[0] is saved beforehand; one thread saves snaps[1] and then snaps[2], another thread loads twice;
+	// every interleaving of their file-system calls
+	Loader bool
 }
 
 func crashCases(tier string) []crashCase {
@@ -284,6 +290,15 @@ func crashCases(tier string) []crashCase {
 		cs = append(cs, crashCase{Name: fmt.Sprintf("concurrent/%djobs+%djobs", small[p[0]], small[p[1]]), Snaps: []*store.PersistedData{a, b}, Conc: true})
 		cs = append(cs, crashCase{Name: fmt.Sprintf("concurrent-after-save/%djobs+%djobs", small[p[0]], small[p[1]]), Snaps: []*store.PersistedData{a, b, mkSnapshot("C", 1)}, Conc: true})
 	}
+	// data.json is a symbolic link when the first save arrives
+	for _, i := range []int{1, 2} {
+		cs = append(cs, crashCase{Name: "symlinked-data-file/" + sizes[i].n, Snaps: []*store.PersistedData{mk(i, "A"), mk(1, "B")}, Symlink: true, Fail: true})
+	}
+	// loads that overlap saves (snapshots of different encoded sizes)
+	for _, p := range [][3]int{{1, 2, 0}, {2, 0, 1}, {0, 1, 2}} {
+		cs = append(cs, crashCase{Name: fmt.Sprintf("load-during-saves/%djobs,then-%djobs+%djobs", small[p[0]], small[p[1]], small[p[2]]),
+			Snaps: []*store.PersistedData{mkSnapshot("I", small[p[0]]), mkSnapshot("A", small[p[1]]), mkSnapshot("B", small[p[2]])}, Loader: true})
+	}
 	return cs
 }
 
@@ -301,6 +316,9 @@ func runCrashCase(cc crashCase) crashResult {
 	if cc.Conc {
 		return runCrashConcurrent(cc)
 	}
+	if cc.Loader {
+		return runCrashLoader(cc)
+	}
 	dir, err := os.MkdirTemp("", "verif-c09-")
 	if err != nil {
 		panic(err)
@@ -311,11 +329,33 @@ func runCrashCase(cc crashCase) crashResult {
 	if err != nil {
 		panic(err)
 	}
+	linked := ""
+	if cc.Symlink {
+		target, err := os.MkdirTemp("", "verif-c09-target-")
+		if err != nil {
+			panic(err)
+		}
+		defer os.RemoveAll(target)
+		ts, err := store.NewJSONDataStore(target)
+		if err != nil {
+			panic(err)
+		}
+		l := mkSnapshot("L", 2)
+		if err := ts.Save(l); err != nil {
+			panic(err)
+		}
+		if err := os.Symlink(filepath.Join(target, "data.json"), filepath.Join(dir, "data.json")); err != nil {
+			panic(err)
+		}
+		linked = canon(l)
+	}
 	cur := -1 // index of the last save that returned nil
 	inprog := -1
 	ck.allowed = func() []string {
 		var a []string
-		if cur < 0 {
+		if cur < 0 && linked != "" {
+			a = append(a, linked)
+		} else if cur < 0 {
 			a = append(a, "")
 		} else {
 			a = append(a, canon(cc.Snaps[cur]))
@@ -506,6 +546,104 @@ func runCrashConcurrent(cc crashCase) crashResult {
 	res.Viol = dedupV(viol)
 	res.Saves = 2 * x.Execs
 	res.Sample = fmt.Sprintf("%s: %d interleavings of the two savers' file-system calls (exhaustive=%v)", cc.Name, x.Execs, !x.TimedOut && !x.BoundHit)
+	if x.TimedOut || x.BoundHit {
+		res.Viol = append(res.Viol, Violation{Property: "infra", Rule: "cap", Norm: "cap", Msg: "interleaving space not closed"})
+	}
+	return res
+}
+
+// runCrashLoader: a thread that saves twice against a thread that loads twice, every interleaving of their file-system
+// calls; every crash point is inspected as usual, and every load must succeed and return a snapshot the file may
+// have held while the load ran ("complete, loadable at every instant" as seen by a reader that is not a fresh process)
+func runCrashLoader(cc crashCase) crashResult {
+	var res crashResult
+	var viol []Violation
+	type runState struct {
+		dir string
+		ck  *crashChecker
+	}
+	var cur *runState
+	loads := 0
+	sc := &Scenario{
+		Name: cc.Name,
+		Opts: func() WorldOpts { return WorldOpts{Defs: defsOf(PipeCfg{Conc: 1, QL: -1, Graph: graphOne})} },
+		Setup: func(w *World) {
+			dir, err := os.MkdirTemp("", "verif-c09l-")
+			if err != nil {
+				panic(err)
+			}
+			ck := &crashChecker{dir: dir, name: cc.Name}
+			cur = &runState{dir, ck}
+			var ds *store.JsonDataStore
+			withPlainOS(func() {
+				ds, _ = store.NewJSONDataStore(dir)
+				_ = ds.Save(cc.Snaps[0])
+			})
+			started, done := 0, 0 // saves of the saver thread: snaps[1], snaps[2]
+			ck.allowed = func() []string {
+				var a []string
+				for i := done; i <= started; i++ {
+					a = append(a, canon(cc.Snaps[i]))
+				}
+				return a
+			}
+			vos.H = &vos.Hooks{After: func(op, path string) { ck.inspect(op, path) }, Cuts: func(n int) []int {
+				if n > 3 {
+					return []int{n / 2}
+				}
+				return nil
+			}}
+			w.S.Spawn("saver", "saver", func() {
+				for i := 1; i <= 2; i++ {
+					started = i
+					if err := ds.Save(cc.Snaps[i]); err != nil {
+						ck.add("save-fails", fmt.Sprintf("save %d returned an error while another thread loads: %v", i, err))
+					}
+					done = i
+				}
+			})
+			w.S.Spawn("loader", "loader", func() {
+				for k := 0; k < 2; k++ {
+					lo := done
+					got, err := ds.Load()
+					hi := started
+					loads++
+					if err != nil {
+						ck.add("load-during-save-fails", fmt.Sprintf("a load that overlaps a save returns an error although the file held a complete snapshot at every instant: %v", err))
+						continue
+					}
+					ok := false
+					for i := lo; i <= hi; i++ {
+						if canon(got) == canon(cc.Snaps[i]) {
+							ok = true
+						}
+					}
+					if !ok {
+						ck.add("load-during-save-wrong", fmt.Sprintf("a load that ran while saves %d..%d were the last completed / latest started returns none of their snapshots", lo, hi))
+					}
+				}
+			})
+		},
+		Check: func(w *World, x *Exec) []Violation {
+			vos.H = nil
+			vs := cur.ck.viol
+			res.Points += cur.ck.points
+			res.Cuts += cur.ck.writeCuts
+			os.RemoveAll(cur.dir)
+			return vs
+		},
+		NoTick: true,
+	}
+	x := NewX1(sc, 100) // effectively unbounded: the happens-before cache closes the search
+	x.Deadline = newBudget(60 * time.Second)
+	x.explore(nil, nil)
+	res.Execs = x.Execs
+	for _, v := range x.Viol {
+		viol = append(viol, v.Violation)
+	}
+	res.Viol = dedupV(viol)
+	res.Saves = 2 * x.Execs
+	res.Sample = fmt.Sprintf("%s: %d interleavings of a saver's and a loader's file-system calls, %d loads judged (exhaustive=%v)", cc.Name, x.Execs, loads, !x.TimedOut && !x.BoundHit)
 	if x.TimedOut || x.BoundHit {
 		res.Viol = append(res.Viol, Violation{Property: "infra", Rule: "cap", Norm: "cap", Msg: "interleaving space not closed"})
 	}
